@@ -165,7 +165,8 @@ class Paraxial:
             n0 = self.optic.object_surface.material_post.n(wavelength)
             u0 = np.arcsin(ap_value / n0)
             z = self.EPL() - obj_z
-            return 2 * z * np.tan(u0)
+            # a diameter: the entrance pupil may lie behind the object
+            return 2 * np.abs(z) * np.tan(u0)
 
     def XPL(self):
         """Calculate the exit pupil location
@@ -258,9 +259,16 @@ class Paraxial:
             ua = 0
         else:
             obj_z = self.optic.object_surface.geometry.cs.z
-            z = self.EPL() - obj_z
             ya = 0
-            ua = EPD / (2 * z)
+            if self.optic.aperture.ap_type == 'objectNA':
+                # the object-space slope is the aperture definition itself;
+                # EPD / (2 (EPL - z)) is inf / inf for a telecentric lens
+                n0 = self.optic.object_surface.material_post.n(
+                    self.optic.primary_wavelength)
+                ua = np.tan(np.arcsin(self.optic.aperture.value / n0))
+            else:
+                z = self.EPL() - obj_z
+                ua = EPD / (2 * z)
 
         wavelength = self.optic.primary_wavelength
         return self._trace_generic(ya, ua, obj_z, wavelength)
